@@ -221,3 +221,620 @@ Proof.
     replace ((1 * 128 + y) / 128 =? 1) with true by (symmetry; apply N.eqb_eq; lia).
     unfold h. rewrite huff_opt_roundtrip by assumption. reflexivity.
 Qed.
+
+(* ====================================================================================== *)
+(* C. the static table: what index_static returns is what the RFC's table holds there *)
+
+Definition static_entry_ok (e : list N * option (list N) * N * bool) : bool :=
+  let '(n', ex, idx, flag) := e in
+  (1 <=? idx) && (idx <=? 61) &&
+  match nthN rfc_static (idx - 1) with
+  | Some (n0, v0) =>
+    list_N_eqb n0 n' &&
+    (if flag then match ex with Some v' => list_N_eqb v0 v' | None => false end else true)
+  | None => false
+  end.
+
+Lemma static_index_ok : forallb static_entry_ok static_index = true.
+Proof. vm_compute. reflexivity. Qed.
+
+Lemma index_static_in_sound : forall tbl n v i flag,
+  forallb static_entry_ok tbl = true -> index_static_in tbl n v = Some (i, flag) ->
+  1 <= i <= 61 /\ exists v0, nthN rfc_static (i - 1) = Some (n, v0) /\ (flag = true -> v0 = v).
+Proof.
+  induction tbl as [|[[[n' ex] idx] fl] tbl IH]; intros n v i flag Hall H; cbn [index_static_in] in H.
+  - discriminate.
+  - cbn [forallb] in Hall. apply andb_true_iff in Hall. destruct Hall as [He Hall].
+    destruct (list_N_eqb n n' && match ex with Some v' => list_N_eqb v v' | None => true end) eqn:E.
+    + inversion H; subst idx fl. clear H.
+      apply andb_true_iff in E. destruct E as [En Ev]. apply list_N_eqb_eq in En. subst n'.
+      unfold static_entry_ok in He.
+      apply andb_true_iff in He. destruct He as [He Hn].
+      apply andb_true_iff in He. destruct He as [H1 H61].
+      apply N.leb_le in H1. apply N.leb_le in H61. split; [lia|].
+      destruct (nthN rfc_static (i - 1)) as [[n0 v0]|]; [|discriminate].
+      apply andb_true_iff in Hn. destruct Hn as [Hn0 Hfl]. apply list_N_eqb_eq in Hn0. subst n0.
+      exists v0. split; [reflexivity|]. intros ->.
+      destruct ex as [v'|]; [|discriminate].
+      apply list_N_eqb_eq in Hfl. apply list_N_eqb_eq in Ev. congruence.
+    + eapply IH; eassumption.
+Qed.
+
+Lemma index_static_sound h i flag :
+  index_static h = Some (i, flag) ->
+  1 <= i <= 61 /\ exists v0, nthN rfc_static (i - 1) = Some (h_name h, v0) /\ (flag = true -> v0 = h_value h).
+Proof. apply index_static_in_sound, static_index_ok. Qed.
+
+Lemma lookup_static dyn i : 1 <= i <= 61 -> lookup dyn i = nthN rfc_static (i - 1).
+Proof.
+  intros H. unfold lookup, rfc_static_len.
+  replace (i =? 0) with false by (symmetry; apply N.eqb_neq; lia).
+  replace (i <=? 61) with true by (symmetry; apply N.leb_le; lia). reflexivity.
+Qed.
+
+Lemma lookup_dyn dyn j : lookup dyn (j + DYN_OFFSET) = nthN dyn j.
+Proof.
+  unfold lookup, rfc_static_len, DYN_OFFSET, dyn_offset.
+  replace (j + 62 =? 0) with false by (symmetry; apply N.eqb_neq; lia).
+  replace (j + 62 <=? 61) with false by (symmetry; apply N.leb_gt; lia).
+  replace (j + 62 - 61 - 1) with j by lia. reflexivity.
+Qed.
+
+(* ====================================================================================== *)
+(* D. the table operations are the RFC's eviction rules *)
+
+Lemma table_size_app a b : table_size (a ++ b) = table_size a + table_size b.
+Proof. induction a as [|x a IH]; cbn [app table_size]; lia. Qed.
+
+Lemma entry_size_ge f : 32 <= entry_size f.
+Proof. unfold entry_size. lia. Qed.
+
+Lemma keep_prefix_all : forall l b, table_size l <= b -> keep_prefix b l = l.
+Proof.
+  induction l as [|x l IH]; intros b H; cbn [keep_prefix table_size] in *; [reflexivity|].
+  replace (entry_size x <=? b) with true by (symmetry; apply N.leb_le; lia).
+  rewrite IH by lia. reflexivity.
+Qed.
+
+Lemma keep_prefix_drop_last : forall l x b,
+  b < table_size (l ++ [x]) -> keep_prefix b (l ++ [x]) = keep_prefix b l.
+Proof.
+  induction l as [|y l IH]; intros x b H; cbn [app keep_prefix table_size] in *.
+  - replace (entry_size x <=? b) with false by (symmetry; apply N.leb_gt; lia). reflexivity.
+  - destruct (entry_size y <=? b) eqn:E; [|reflexivity].
+    apply N.leb_le in E. rewrite IH by lia. reflexivity.
+Qed.
+
+Lemma keep_prefix_size : forall l b, table_size (keep_prefix b l) <= b.
+Proof.
+  induction l as [|x l IH]; intros b; cbn [keep_prefix table_size]; [lia|].
+  destruct (entry_size x <=? b) eqn:E; cbn [table_size]; [|lia].
+  apply N.leb_le in E. specialize (IH (b - entry_size x)). lia.
+Qed.
+
+Lemma pop_back_spec {A} : forall l : list A,
+  (pop_back l = None /\ l = []) \/ (exists l' x, pop_back l = Some (l', x) /\ l = l' ++ [x]).
+Proof.
+  induction l as [|y l IH]; [left; auto|]. right. cbn [pop_back].
+  destruct IH as [[-> ->]|(l' & x & -> & ->)].
+  - exists [], y. auto.
+  - exists (y :: l'), x. auto.
+Qed.
+
+Lemma table_len_le es : 32 * lenN es <= table_size es.
+Proof.
+  unfold lenN. induction es as [|e es IH]; cbn [table_size List.length]; [lia|].
+  pose proof (entry_size_ge e). lia.
+Qed.
+
+Lemma converge_spec : forall fuel es size max extra,
+  size = extra + table_size es -> extra <= max -> (List.length es < fuel)%nat ->
+  converge fuel es size max =
+    EOk (keep_prefix (max - extra) es, extra + table_size (keep_prefix (max - extra) es)).
+Proof.
+  induction fuel as [|fuel IH]; intros es size max extra Hs He Hf; [lia|].
+  cbn [converge]. destruct (size <=? max) eqn:E.
+  - apply N.leb_le in E. rewrite keep_prefix_all by lia. subst size. reflexivity.
+  - apply N.leb_gt in E.
+    destruct (pop_back_spec es) as [[_ ->]|(es' & last & Hp & ->)].
+    + cbn [table_size] in Hs. lia.
+    + rewrite Hp. rewrite table_size_app in Hs. cbn [table_size] in Hs.
+      change (fsize last) with (entry_size last).
+      replace (size <? entry_size last) with false by (symmetry; apply N.ltb_ge; lia).
+      rewrite (IH es' (size - entry_size last) max extra); [| lia | lia |].
+      * rewrite keep_prefix_drop_last; [reflexivity|].
+        rewrite table_size_app. cbn [table_size]. lia.
+      * rewrite app_length in Hf. cbn [List.length] in Hf. lia.
+Qed.
+
+Definition tinv (t : enc_table) : Prop :=
+  et_size t = table_size (et_entries t) /\ et_size t <= et_max t.
+
+(* the table after inserting f, in the RFC's words *)
+Definition ins (t : enc_table) (f : hfield) : enc_table :=
+  mkTable (add_entry (et_max t) f (et_entries t))
+          (table_size (add_entry (et_max t) f (et_entries t))) (et_max t).
+
+Lemma add_entry_size max f dyn : table_size (add_entry max f dyn) <= max.
+Proof.
+  unfold add_entry. destruct (entry_size f <=? max) eqn:E; cbn [table_size]; [|lia].
+  apply N.leb_le in E. pose proof (keep_prefix_size dyn (max - entry_size f)). lia.
+Qed.
+
+Lemma tinv_ins t f : tinv (ins t f).
+Proof. unfold tinv, ins. cbn [et_size et_entries et_max]. split; [reflexivity|apply add_entry_size]. Qed.
+
+Lemma table_insert_spec t f : tinv t -> fsize f <= et_max t -> table_insert t f = EOk (ins t f).
+Proof.
+  intros [Hs Hm] Hf. unfold table_insert, converge_fuel.
+  rewrite (converge_spec _ _ _ _ (fsize f)); [| lia | exact Hf | apply Nat.lt_succ_diag_r].
+  unfold ins, add_entry. change (entry_size f) with (fsize f).
+  replace (fsize f <=? et_max t) with true by (symmetry; apply N.leb_le; exact Hf).
+  cbn [table_size]. reflexivity.
+Qed.
+
+(* the table after a size update to v, in the RFC's words *)
+Definition rsz (t : enc_table) (v : N) : enc_table :=
+  mkTable (evict_to v (et_entries t)) (table_size (evict_to v (et_entries t))) v.
+
+Lemma tinv_rsz t v : tinv (rsz t v).
+Proof. unfold tinv, rsz, evict_to. cbn [et_size et_entries et_max]. split; [reflexivity|apply keep_prefix_size]. Qed.
+
+Lemma table_resize_spec t v : tinv t -> table_resize t v = EOk (rsz t v).
+Proof.
+  intros [Hs Hm]. unfold table_resize, rsz, evict_to. destruct (v =? 0) eqn:E.
+  - apply N.eqb_eq in E. subst v. destruct (et_entries t) as [|e es]; [reflexivity|].
+    cbn [keep_prefix]. pose proof (entry_size_ge e).
+    replace (entry_size e <=? 0) with false by (symmetry; apply N.leb_gt; lia). reflexivity.
+  - unfold converge_fuel. rewrite (converge_spec _ _ _ _ 0); [| lia | lia | apply Nat.lt_succ_diag_r].
+    rewrite N.sub_0_r, N.add_0_l. reflexivity.
+Qed.
+
+(* ====================================================================================== *)
+(* E. searching the table *)
+
+Lemma find_first_pos_spec p : forall es i j,
+  find_first_pos p es i = Some j -> i <= j /\ exists e, nthN es (j - i) = Some e /\ p e = true.
+Proof.
+  induction es as [|e es IH]; intros i j H; cbn [find_first_pos] in H; [discriminate|].
+  destruct (p e) eqn:E.
+  - inversion H; subst j. split; [lia|]. exists e. cbn [nthN]. rewrite N.sub_diag. auto.
+  - apply IH in H. destruct H as [Hle (e' & Hn & Hp)]. split; [lia|]. exists e'. cbn [nthN].
+    replace (j - i =? 0) with false by (symmetry; apply N.eqb_neq; lia).
+    replace (j - i - 1) with (j - (i + 1)) by lia. auto.
+Qed.
+
+Lemma find_last_pos_spec p : forall es i j,
+  find_last_pos p es i = Some j -> i <= j /\ exists e, nthN es (j - i) = Some e /\ p e = true.
+Proof.
+  induction es as [|e es IH]; intros i j H; cbn [find_last_pos] in H; [discriminate|].
+  destruct (find_last_pos p es (i + 1)) as [j'|] eqn:E.
+  - inversion H; subst j'. apply IH in E. destruct E as [Hle (e' & Hn & Hp)].
+    split; [lia|]. exists e'. cbn [nthN].
+    replace (j - i =? 0) with false by (symmetry; apply N.eqb_neq; lia).
+    replace (j - i - 1) with (j - (i + 1)) by lia. auto.
+  - destruct (p e) eqn:Ep; [|discriminate]. inversion H; subst j. split; [lia|].
+    exists e. cbn [nthN]. rewrite N.sub_diag. auto.
+Qed.
+
+Lemma nthN_lt {A} : forall (l : list A) n x, nthN l n = Some x -> n < lenN l.
+Proof.
+  unfold lenN. induction l as [|y l IH]; intros n x H; cbn [nthN] in H; [discriminate|].
+  cbn [List.length]. destruct (n =? 0) eqn:E.
+  - apply N.eqb_eq in E. lia.
+  - apply N.eqb_neq in E. apply IH in H. lia.
+Qed.
+
+Lemma name_is_spec n e : name_is n e = true -> fst e = n.
+Proof. unfold name_is. apply list_N_eqb_eq. Qed.
+
+Lemma field_is_spec n v e : field_is n v e = true -> e = (n, v).
+Proof.
+  unfold field_is. rewrite andb_true_iff. intros [H1 H2].
+  apply list_N_eqb_eq in H1. apply list_N_eqb_eq in H2. destruct e. cbn in *. congruence.
+Qed.
+
+(* the outcomes of Table::index *)
+Lemma table_index_cases t h : tinv t ->
+  (table_index t h = EOk (t, index_new (index_static h))) \/
+  (exists r, table_index t h = EOk (t, Indexed (r + DYN_OFFSET)) /\
+             nthN (et_entries t) r = Some (h_name h, h_value h)) \/
+  (exists j v0, table_index t h = EOk (t, Name (j + DYN_OFFSET)) /\
+                nthN (et_entries t) j = Some (h_name h, v0) /\ hdr_is_sensitive h = true) \/
+  (hdr_is_sensitive h = false /\ fsize (hdr_field h) <= et_max t /\
+   exists i, table_index t h = EOk (ins t (hdr_field h), InsertedValue i 0) /\
+     ((exists fl, index_static h = Some (i, fl)) \/
+      (exists j v0, i = j + DYN_OFFSET /\ nthN (et_entries t) j = Some (h_name h, v0)))) \/
+  (hdr_is_sensitive h = false /\ fsize (hdr_field h) <= et_max t /\ index_static h = None /\
+   table_index t h = EOk (ins t (hdr_field h), Inserted 0)).
+Proof.
+  intros Ht. unfold table_index.
+  destruct (hdr_skip_value_index h); [left; reflexivity|].
+  assert (Hdyn :
+    et_max t * 3 <? hdr_len h * 4 = false ->
+    (index_dynamic t h (index_static h) = EOk (t, index_new (index_static h))) \/
+    (exists r, index_dynamic t h (index_static h) = EOk (t, Indexed (r + DYN_OFFSET)) /\
+               nthN (et_entries t) r = Some (h_name h, h_value h)) \/
+    (exists j v0, index_dynamic t h (index_static h) = EOk (t, Name (j + DYN_OFFSET)) /\
+                  nthN (et_entries t) j = Some (h_name h, v0) /\ hdr_is_sensitive h = true) \/
+    (hdr_is_sensitive h = false /\ fsize (hdr_field h) <= et_max t /\
+     exists i, index_dynamic t h (index_static h) = EOk (ins t (hdr_field h), InsertedValue i 0) /\
+       ((exists fl, index_static h = Some (i, fl)) \/
+        (exists j v0, i = j + DYN_OFFSET /\ nthN (et_entries t) j = Some (h_name h, v0)))) \/
+    (hdr_is_sensitive h = false /\ fsize (hdr_field h) <= et_max t /\ index_static h = None /\
+     index_dynamic t h (index_static h) = EOk (ins t (hdr_field h), Inserted 0))).
+  { intros Hsmall. apply N.ltb_ge in Hsmall. unfold hdr_len in Hsmall.
+    assert (Hfit : fsize (hdr_field h) <= et_max t) by lia.
+    unfold index_dynamic.
+    destruct (find_first_pos (name_is (h_name h)) (et_entries t) 0) as [newest|] eqn:Ef.
+    - apply find_first_pos_spec in Ef. destruct Ef as [_ (e & Hn & Hp)].
+      rewrite N.sub_0_r in Hn. apply name_is_spec in Hp. destruct e as [en ev]. cbn [fst] in Hp. subst en.
+      destruct (find_last_pos (field_is (h_name h) (h_value h)) (et_entries t) 0) as [r|] eqn:El.
+      + apply find_last_pos_spec in El. destruct El as [_ (e & Hr & Hq)].
+        rewrite N.sub_0_r in Hr. apply field_is_spec in Hq. subst e.
+        right; left. exists r. auto.
+      + destruct (hdr_is_sensitive h) eqn:Es.
+        * right; right; left. exists newest, ev. auto.
+        * right; right; right; left. split; [reflexivity|]. split; [exact Hfit|].
+          rewrite table_insert_spec by assumption.
+          destruct (index_static h) as [[i fl]|] eqn:Est; cbn [statik_name].
+          -- exists i. split; [reflexivity|]. left. exists fl. reflexivity.
+          -- exists (newest + DYN_OFFSET). split; [reflexivity|]. right. exists newest, ev. auto.
+    - destruct (hdr_is_sensitive h) eqn:Es; [left; reflexivity|].
+      rewrite table_insert_spec by assumption.
+      destruct (index_static h) as [[i fl]|] eqn:Est; cbn [statik_name].
+      + right; right; right; left. split; [reflexivity|]. split; [exact Hfit|].
+        exists i. split; [reflexivity|]. left. exists fl. reflexivity.
+      + right; right; right; right. auto. }
+  destruct (index_static h) as [[i [|]]|] eqn:Est.
+  - left. reflexivity.
+  - destruct (et_max t * 3 <? hdr_len h * 4) eqn:E; [left; reflexivity|]. apply Hdyn. reflexivity.
+  - destruct (et_max t * 3 <? hdr_len h * 4) eqn:E; [left; reflexivity|]. apply Hdyn. reflexivity.
+Qed.
+
+(* ====================================================================================== *)
+(* F. every representation the encoder writes is read back by the reference decoder *)
+
+Notation hd := huff_decode_opt (only parsing).
+
+Lemma small_lt_pow (L : nat) i : (4 <= L)%nat -> i < 2 ^ 28 -> i < 128 ^ N.of_nat L.
+Proof. intros HL Hi. pose proof (pow128_ge L HL). lia. Qed.
+
+(* 6.1 *)
+Lemma rep_indexed (L : nat) max dyn i f rest :
+  (4 <= L)%nat -> i < 2 ^ 28 -> lookup dyn i = Some f ->
+  ref_field_step hd L max dyn (enc_int i 7 128 ++ rest) = Some (f, dyn, rest).
+Proof.
+  intros HL Hi Hl. change 128 with (1 * 2 ^ 7).
+  pose proof (enc_int_decode L 7 1 i rest ltac:(lia) (small_lt_pow L i HL Hi)) as Hd.
+  destruct (enc_int_head i 7 1) as (x & tl & Hh & Hx).
+  rewrite Hh in Hd |- *. cbn [app] in Hd |- *. unfold ref_field_step. rewrite Hd, Hl.
+  change (2 ^ 7) with 128 in *.
+  replace ((1 * 128 + x) / 128 =? 1) with true by (symmetry; apply N.eqb_eq; lia).
+  reflexivity.
+Qed.
+
+(* 6.2.2 / 6.2.3 with an indexed name; hi = 0 without indexing, hi = 1 never indexed *)
+Lemma rep_literal_idx (L : nat) max dyn hi i n v0 v rest :
+  (4 <= L)%nat -> hi <= 1 -> 1 <= i < 2 ^ 28 -> lookup dyn i = Some (n, v0) -> str_ok v = true ->
+  ref_field_step hd L max dyn (enc_int i 4 (hi * 2 ^ 4) ++ enc_str v ++ rest) = Some ((n, v), dyn, rest).
+Proof.
+  intros HL Hhi Hi Hl Hv.
+  pose proof (enc_int_decode L 4 hi i (enc_str v ++ rest) ltac:(lia) (small_lt_pow L i HL ltac:(lia))) as Hd.
+  destruct (enc_int_head i 4 hi) as (x & tl & Hh & Hx).
+  rewrite Hh in Hd |- *. cbn [app] in Hd |- *. unfold ref_field_step.
+  change (2 ^ 4) with 16 in *.
+  replace ((hi * 16 + x) / 128 =? 1) with false by (symmetry; apply N.eqb_neq; lia).
+  replace ((hi * 16 + x) / 64 =? 1) with false by (symmetry; apply N.eqb_neq; lia).
+  assert (Hb : ((hi * 16 + x) / 16 =? 0) || ((hi * 16 + x) / 16 =? 1) = true).
+  { apply orb_true_iff. rewrite !N.eqb_eq. lia. }
+  rewrite Hb. unfold ref_literal, ref_lit_name. rewrite Hd.
+  replace (i =? 0) with false by (symmetry; apply N.eqb_neq; lia).
+  rewrite Hl. rewrite enc_str_decode by assumption. reflexivity.
+Qed.
+
+Lemma encode_not_indexed_shape i v sens :
+  encode_not_indexed i v sens = enc_int i 4 ((if sens then 1 else 0) * 2 ^ 4) ++ enc_str v.
+Proof. unfold encode_not_indexed. destruct sens; reflexivity. Qed.
+
+Lemma rep_not_indexed (L : nat) max dyn sens i n v0 v rest :
+  (4 <= L)%nat -> 1 <= i < 2 ^ 28 -> lookup dyn i = Some (n, v0) -> str_ok v = true ->
+  ref_field_step hd L max dyn (encode_not_indexed i v sens ++ rest) = Some ((n, v), dyn, rest).
+Proof.
+  intros HL Hi Hl Hv. rewrite encode_not_indexed_shape, <- app_assoc.
+  eapply rep_literal_idx; try eassumption. destruct sens; lia.
+Qed.
+
+(* 6.2.2 / 6.2.3 with a literal name *)
+Lemma rep_not_indexed2 (L : nat) max dyn sens n v rest :
+  (4 <= L)%nat -> str_ok n = true -> str_ok v = true ->
+  ref_field_step hd L max dyn (encode_not_indexed2 n v sens ++ rest) = Some ((n, v), dyn, rest).
+Proof.
+  intros HL Hn Hv. unfold encode_not_indexed2.
+  assert (Hgen : forall b, b = 0 \/ b = 16 ->
+    ref_field_step hd L max dyn (([b] ++ enc_str n ++ enc_str v) ++ rest) = Some ((n, v), dyn, rest)).
+  { intros b Hb. rewrite <- !app_assoc. cbn [app]. unfold ref_field_step.
+    replace (b / 128 =? 1) with false by (symmetry; apply N.eqb_neq; lia).
+    replace (b / 64 =? 1) with false by (symmetry; apply N.eqb_neq; lia).
+    assert (Hb2 : (b / 16 =? 0) || (b / 16 =? 1) = true).
+    { apply orb_true_iff. rewrite !N.eqb_eq. lia. }
+    rewrite Hb2. unfold ref_literal, ref_lit_name, ref_decode_int.
+    change (2 ^ 4) with 16.
+    replace (b mod 16) with 0 by (destruct Hb; subst b; reflexivity).
+    change (0 <? 16 - 1) with true. cbv beta iota. change (0 =? 0) with true. cbv beta iota.
+    rewrite enc_str_decode by assumption. rewrite enc_str_decode by assumption. reflexivity. }
+  destruct sens; apply Hgen; auto.
+Qed.
+
+(* 6.2.1 with an indexed name *)
+Lemma rep_incremental_idx (L : nat) max dyn i n v0 v rest :
+  (4 <= L)%nat -> 1 <= i < 2 ^ 28 -> lookup dyn i = Some (n, v0) -> str_ok v = true ->
+  ref_field_step hd L max dyn ((enc_int i 6 64 ++ enc_str v) ++ rest)
+  = Some ((n, v), add_entry max (n, v) dyn, rest).
+Proof.
+  intros HL Hi Hl Hv. rewrite <- app_assoc. change 64 with (1 * 2 ^ 6).
+  pose proof (enc_int_decode L 6 1 i (enc_str v ++ rest) ltac:(lia) (small_lt_pow L i HL ltac:(lia))) as Hd.
+  destruct (enc_int_head i 6 1) as (x & tl & Hh & Hx).
+  rewrite Hh in Hd |- *. cbn [app] in Hd |- *. unfold ref_field_step.
+  change (2 ^ 6) with 64 in *.
+  replace ((1 * 64 + x) / 128 =? 1) with false by (symmetry; apply N.eqb_neq; lia).
+  replace ((1 * 64 + x) / 64 =? 1) with true by (symmetry; apply N.eqb_eq; lia).
+  unfold ref_literal, ref_lit_name. rewrite Hd.
+  replace (i =? 0) with false by (symmetry; apply N.eqb_neq; lia).
+  rewrite Hl. rewrite enc_str_decode by assumption. reflexivity.
+Qed.
+
+(* 6.2.1 with a literal name *)
+Lemma rep_incremental_new (L : nat) max dyn n v rest :
+  (4 <= L)%nat -> str_ok n = true -> str_ok v = true ->
+  ref_field_step hd L max dyn ((64 :: enc_str n ++ enc_str v) ++ rest)
+  = Some ((n, v), add_entry max (n, v) dyn, rest).
+Proof.
+  intros HL Hn Hv. cbn [app]. rewrite <- app_assoc. unfold ref_field_step.
+  change (64 / 128 =? 1) with false. change (64 / 64 =? 1) with true. cbv beta iota.
+  unfold ref_literal, ref_lit_name, ref_decode_int.
+  change (64 mod 2 ^ 6) with 0. change (0 <? 2 ^ 6 - 1) with true. cbv beta iota.
+  change (0 =? 0) with true. cbv beta iota.
+  rewrite enc_str_decode by assumption. rewrite enc_str_decode by assumption. reflexivity.
+Qed.
+
+(* a field representation is never mistaken for a size update *)
+Lemma field_not_update (L L' : nat) max dyn limit bs r :
+  ref_field_step hd L max dyn bs = Some r -> ref_update_step L' limit bs = None.
+Proof.
+  unfold ref_field_step, ref_update_step. destruct bs as [|b bs]; [discriminate|].
+  intros H. destruct (b / 32 =? 1) eqn:E; [|reflexivity]. apply N.eqb_eq in E. exfalso.
+  destruct (b / 128 =? 1) eqn:E1; [apply N.eqb_eq in E1; lia|].
+  destruct (b / 64 =? 1) eqn:E2; [apply N.eqb_eq in E2; lia|].
+  destruct ((b / 16 =? 0) || (b / 16 =? 1)) eqn:E3; [|discriminate].
+  apply orb_true_iff in E3. rewrite !N.eqb_eq in E3. lia.
+Qed.
+
+(* 6.3 *)
+Lemma rep_size_update (L : nat) limit v rest :
+  (4 <= L)%nat -> v <= limit -> v < 2 ^ 28 ->
+  ref_update_step L limit (enc_size_update v ++ rest) = Some (v, rest).
+Proof.
+  intros HL Hv Hs. unfold enc_size_update. change 32 with (1 * 2 ^ 5).
+  pose proof (enc_int_decode L 5 1 v rest ltac:(lia) (small_lt_pow L v HL Hs)) as Hd.
+  destruct (enc_int_head v 5 1) as (x & tl & Hh & Hx).
+  rewrite Hh in Hd |- *. cbn [app] in Hd |- *. unfold ref_update_step. rewrite Hd.
+  change (2 ^ 5) with 32 in *.
+  replace ((1 * 32 + x) / 32 =? 1) with true by (symmetry; apply N.eqb_eq; lia).
+  replace (v <=? limit) with true by (symmetry; apply N.leb_le; assumption). reflexivity.
+Qed.
+
+(* ====================================================================================== *)
+(* G. one header, then the loop of `encode` *)
+
+Definition hdr_ok (h : hdr) : bool := str_ok (h_name h) && str_ok (h_value h).
+
+(* index i names an entry with name n in the decoder's address space *)
+Definition name_ref_ok (dyn : list field) (i : N) (n : list N) : Prop :=
+  1 <= i < 2 ^ 28 /\ exists v0, lookup dyn i = Some (n, v0).
+
+(* what `last_index` has to satisfy for encode_header_without_name *)
+Definition last_ok (dyn : list field) (idx : index) (n : list N) : Prop :=
+  match resolve_idx idx with Some i => name_ref_ok dyn i n | None => True end.
+
+Lemma dyn_pos_small t j e :
+  tinv t -> et_max t <= 4096 -> nthN (et_entries t) j = Some e -> 1 <= j + DYN_OFFSET < 2 ^ 28.
+Proof.
+  intros [Hs Hm] H4 Hn. apply nthN_lt in Hn. pose proof (table_len_le (et_entries t)) as Hlen.
+  unfold lenN in *.
+  unfold DYN_OFFSET, dyn_offset. change (2 ^ 28) with 268435456. lia.
+Qed.
+
+(* wf-free part: Table::index and encode_header never fail; sensitive headers are not inserted *)
+Lemma table_index_ok t h : tinv t ->
+  exists t' idx octets, table_index t h = EOk (t', idx) /\ encode_header idx h = EOk octets /\
+    tinv t' /\ et_max t' = et_max t /\ (hdr_is_sensitive h = true -> t' = t).
+Proof.
+  intros Ht.
+  destruct (table_index_cases t h Ht) as [H|[(r & H & _)|[(j & v0 & H & _ & _)|[(Hs & Hf & i & H & _)|(Hs & Hf & _ & H)]]]].
+  - exists t, (index_new (index_static h)).
+    destruct (index_static h) as [[i [|]]|]; cbn [index_new encode_header]; eauto 10.
+  - exists t, (Indexed (r + DYN_OFFSET)). cbn [encode_header]. eauto 10.
+  - exists t, (Name (j + DYN_OFFSET)). cbn [encode_header]. eauto 10.
+  - exists (ins t (hdr_field h)), (InsertedValue i 0). cbn [encode_header]. rewrite Hs.
+    eexists. split; [exact H|]. split; [reflexivity|]. split; [apply tinv_ins|]. split; [reflexivity|discriminate].
+  - exists (ins t (hdr_field h)), (Inserted 0). cbn [encode_header]. rewrite Hs.
+    eexists. split; [exact H|]. split; [reflexivity|]. split; [apply tinv_ins|]. split; [reflexivity|discriminate].
+Qed.
+
+Lemma index_new_step (L : nat) max dyn h : (4 <= L)%nat -> hdr_ok h = true ->
+  exists octets, encode_header (index_new (index_static h)) h = EOk octets /\
+    (forall rest, ref_field_step hd L max dyn (octets ++ rest) = Some (hdr_field h, dyn, rest)) /\
+    last_ok dyn (index_new (index_static h)) (h_name h).
+Proof.
+  intros HL Hh. unfold hdr_ok in Hh. apply andb_true_iff in Hh. destruct Hh as [Hn Hv].
+  destruct (index_static h) as [[i [|]]|] eqn:Est; cbn [index_new encode_header].
+  - apply index_static_sound in Est. destruct Est as [Hi (v0 & Hnth & Hfl)].
+    specialize (Hfl eq_refl). subst v0.
+    assert (Hl : lookup dyn i = Some (h_name h, h_value h)) by (rewrite lookup_static; assumption).
+    eexists. split; [reflexivity|]. split.
+    + intros rest. apply rep_indexed; [assumption| change (2 ^ 28) with 268435456; lia | exact Hl].
+    + unfold last_ok, name_ref_ok. cbn [resolve_idx]. split; [change (2 ^ 28) with 268435456; lia|eauto].
+  - apply index_static_sound in Est. destruct Est as [Hi (v0 & Hnth & _)].
+    assert (Hl : lookup dyn i = Some (h_name h, v0)) by (rewrite lookup_static; assumption).
+    eexists. split; [reflexivity|]. split.
+    + intros rest. eapply rep_not_indexed; [assumption| change (2 ^ 28) with 268435456; lia | exact Hl | assumption].
+    + unfold last_ok, name_ref_ok. cbn [resolve_idx]. split; [change (2 ^ 28) with 268435456; lia|eauto].
+  - eexists. split; [reflexivity|]. split.
+    + intros rest. apply rep_not_indexed2; assumption.
+    + exact I.
+Qed.
+
+Lemma table_index_step (L : nat) t h :
+  (4 <= L)%nat -> tinv t -> et_max t <= 4096 -> hdr_ok h = true ->
+  exists t' idx octets, table_index t h = EOk (t', idx) /\ encode_header idx h = EOk octets /\
+    (forall rest, ref_field_step hd L (et_max t) (et_entries t) (octets ++ rest)
+                  = Some (hdr_field h, et_entries t', rest)) /\
+    tinv t' /\ et_max t' = et_max t /\ last_ok (et_entries t') idx (h_name h).
+Proof.
+  intros HL Ht H4 Hh.
+  pose proof Hh as Hh'. unfold hdr_ok in Hh'. apply andb_true_iff in Hh'. destruct Hh' as [Hn Hv].
+  destruct (table_index_cases t h Ht) as [H|[(r & H & Hr)|[(j & v0 & H & Hj & Hs)|[(Hs & Hf & i & H & Hi)|(Hs & Hf & Hst & H)]]]].
+  - destruct (index_new_step L (et_max t) (et_entries t) h HL Hh) as (octets & He & Hd & Hlast).
+    exists t, (index_new (index_static h)), octets. auto 10.
+  - exists t, (Indexed (r + DYN_OFFSET)). cbn [encode_header]. eexists.
+    split; [exact H|]. split; [reflexivity|].
+    pose proof (dyn_pos_small t r _ Ht H4 Hr) as Hb.
+    split; [|split; [exact Ht|split; [reflexivity|]]].
+    + intros rest. apply rep_indexed; [assumption|lia|]. rewrite lookup_dyn. exact Hr.
+    + unfold last_ok, name_ref_ok. cbn [resolve_idx]. split; [exact Hb|]. rewrite lookup_dyn. eauto.
+  - exists t, (Name (j + DYN_OFFSET)). cbn [encode_header]. eexists.
+    split; [exact H|]. split; [reflexivity|].
+    pose proof (dyn_pos_small t j _ Ht H4 Hj) as Hb.
+    split; [|split; [exact Ht|split; [reflexivity|]]].
+    + intros rest. eapply rep_not_indexed; [assumption|exact Hb| |assumption]. rewrite lookup_dyn. exact Hj.
+    + unfold last_ok, name_ref_ok. cbn [resolve_idx]. split; [exact Hb|]. rewrite lookup_dyn. eauto.
+  - exists (ins t (hdr_field h)), (InsertedValue i 0). cbn [encode_header]. rewrite Hs. eexists.
+    split; [exact H|]. split; [reflexivity|].
+    assert (Hname : name_ref_ok (et_entries t) i (h_name h)).
+    { destruct Hi as [(fl & Hst)|(j & v0 & -> & Hj)].
+      - apply index_static_sound in Hst. destruct Hst as [Hi (v0 & Hnth & _)].
+        split; [change (2 ^ 28) with 268435456; lia|]. exists v0. rewrite lookup_static; assumption.
+      - split; [eapply dyn_pos_small; eassumption|]. exists v0. rewrite lookup_dyn. exact Hj. }
+    destruct Hname as [Hb (v0 & Hl)].
+    split; [|split; [apply tinv_ins|split; [reflexivity|]]].
+    + intros rest. cbn [ins et_entries]. eapply rep_incremental_idx; eassumption.
+    + unfold last_ok, name_ref_ok. cbn [resolve_idx ins et_entries].
+      split; [unfold DYN_OFFSET, dyn_offset; change (2 ^ 28) with 268435456; lia|].
+      rewrite lookup_dyn. unfold add_entry. change (entry_size (hdr_field h)) with (fsize (hdr_field h)).
+      replace (fsize (hdr_field h) <=? et_max t) with true by (symmetry; apply N.leb_le; exact Hf).
+      cbn [nthN]. change (0 =? 0) with true. cbv beta iota. unfold hdr_field. eauto.
+  - exists (ins t (hdr_field h)), (Inserted 0). cbn [encode_header]. rewrite Hs. eexists.
+    split; [exact H|]. split; [reflexivity|].
+    split; [|split; [apply tinv_ins|split; [reflexivity|]]].
+    + intros rest. cbn [ins et_entries]. apply rep_incremental_new; assumption.
+    + unfold last_ok, name_ref_ok. cbn [resolve_idx ins et_entries].
+      split; [unfold DYN_OFFSET, dyn_offset; change (2 ^ 28) with 268435456; lia|].
+      rewrite lookup_dyn. unfold add_entry. change (entry_size (hdr_field h)) with (fsize (hdr_field h)).
+      replace (fsize (hdr_field h) <=? et_max t) with true by (symmetry; apply N.leb_le; exact Hf).
+      cbn [nthN]. change (0 =? 0) with true. cbv beta iota. unfold hdr_field. eauto.
+Qed.
+
+Lemma nameless_step (L : nat) max dyn idx lh v sens rest :
+  (4 <= L)%nat -> last_ok dyn idx (h_name lh) -> str_ok (h_name lh) = true -> str_ok v = true ->
+  ref_field_step hd L max dyn (encode_header_without_name idx lh v sens ++ rest)
+  = Some ((h_name lh, v), dyn, rest).
+Proof.
+  intros HL Hlast Hn Hv. unfold encode_header_without_name, last_ok in *.
+  destruct (resolve_idx idx) as [i|].
+  - destruct Hlast as [Hb (v0 & Hl)]. eapply rep_not_indexed; eassumption.
+  - apply rep_not_indexed2; assumption.
+Qed.
+
+(* well-formedness of what is submitted *)
+Definition field_ok (f : field_in) : bool :=
+  match fi_name f with Some n => str_ok n | None => true end && str_ok (fi_value f).
+
+Definition block_named (fl : list field_in) : bool :=
+  match fl with
+  | [] => true
+  | f :: _ => match fi_name f with Some _ => true | None => false end
+  end.
+
+Definition block_ok (fl : list field_in) : bool := block_named fl && forallb field_ok fl.
+
+Definition last_inv (dyn : list field) (last : option (index * hdr)) (prev : list N) : Prop :=
+  match last with
+  | None => True
+  | Some (idx, lh) => h_name lh = prev /\ str_ok prev = true /\ last_ok dyn idx prev
+  end.
+
+Lemma ref_fields_nil (L : nat) max fuel dyn : ref_fields hd L max fuel dyn [] = Some ([], dyn).
+Proof. destruct fuel; reflexivity. Qed.
+
+Lemma ref_fields_step (L : nat) max fuel dyn octets rest f dyn1 fs dyn2 :
+  (forall r, ref_field_step hd L max dyn (octets ++ r) = Some (f, dyn1, r)) ->
+  (List.length (octets ++ rest) <= fuel)%nat ->
+  (forall fuel', (List.length rest <= fuel')%nat -> ref_fields hd L max fuel' dyn1 rest = Some (fs, dyn2)) ->
+  ref_fields hd L max fuel dyn (octets ++ rest) = Some (f :: fs, dyn2).
+Proof.
+  intros Hstep Hfuel Hrest.
+  assert (Hne : octets <> []).
+  { intros ->. specialize (Hstep []). cbn in Hstep. discriminate. }
+  destruct octets as [|b octets]; [congruence|].
+  cbn [app List.length] in Hfuel. destruct fuel as [|fuel]; [lia|].
+  cbn [app ref_fields]. change (b :: octets ++ rest) with ((b :: octets) ++ rest).
+  rewrite Hstep. rewrite Hrest; [reflexivity|]. rewrite app_length in Hfuel. lia.
+Qed.
+
+Lemma encode_loop_decode (L : nat) : (4 <= L)%nat -> forall fl t last prev,
+  tinv t -> et_max t <= 4096 -> forallb field_ok fl = true ->
+  last_inv (et_entries t) last prev -> (last = None -> block_named fl = true) ->
+  exists t' out, encode_loop t last fl = EOk (t', out) /\ tinv t' /\ et_max t' = et_max t /\
+    forall fuel, (List.length out <= fuel)%nat ->
+      ref_fields hd L (et_max t) fuel (et_entries t) out
+      = Some (submitted_from prev fl, et_entries t').
+Proof.
+  intros HL. induction fl as [|f fl IH]; intros t last prev Ht H4 Hok Hlast Hnamed.
+  - exists t, []. cbn [encode_loop submitted_from]. repeat split; auto. intros fuel _. apply ref_fields_nil.
+  - cbn [forallb] in Hok. apply andb_true_iff in Hok. destruct Hok as [Hf Hok].
+    unfold field_ok in Hf. apply andb_true_iff in Hf. destruct Hf as [Hfn Hfv].
+    cbn [encode_loop submitted_from]. destruct (fi_name f) as [n|] eqn:En.
+    + set (h := mkHdr n (fi_value f) (fi_sens f)).
+      assert (Hh : hdr_ok h = true) by (unfold hdr_ok, h; cbn [h_name h_value]; rewrite Hfn, Hfv; reflexivity).
+      destruct (table_index_step L t h HL Ht H4 Hh) as (t1 & idx & octets & Hti & Heh & Hstep & Ht1 & Hm1 & Hl1).
+      rewrite Hti, Heh.
+      destruct (IH t1 (Some (idx, h)) n Ht1 ltac:(lia) Hok) as (t2 & rest & Hloop & Ht2 & Hm2 & Hdec).
+      { cbn [last_inv]. unfold h at 1. cbn [h_name]. auto. }
+      { discriminate. }
+      rewrite Hloop. exists t2, (octets ++ rest). split; [reflexivity|]. split; [exact Ht2|].
+      split; [lia|]. intros fuel Hfuel.
+      eapply ref_fields_step; [exact Hstep|exact Hfuel|]. intros fuel' Hfuel'.
+      rewrite <- Hm1. apply Hdec. exact Hfuel'.
+    + destruct last as [[idx lh]|].
+      * cbn [last_inv] in Hlast. destruct Hlast as (Hname & Hprev & Hl).
+        destruct (IH t (Some (idx, lh)) prev Ht H4 Hok) as (t2 & rest & Hloop & Ht2 & Hm2 & Hdec).
+        { cbn [last_inv]. auto. }
+        { discriminate. }
+        rewrite Hloop. eexists t2, (_ ++ rest). split; [reflexivity|]. split; [exact Ht2|].
+        split; [exact Hm2|]. intros fuel Hfuel.
+        eapply ref_fields_step; [|exact Hfuel|exact Hdec].
+        intros r. rewrite <- Hname. apply nameless_step; try assumption; rewrite Hname; assumption.
+      * specialize (Hnamed eq_refl). cbn [block_named] in Hnamed. rewrite En in Hnamed. discriminate.
+Qed.
+
+(* wf-free: the loop can only fail with the "no previous name" panic, and keeps the invariant *)
+Lemma encode_loop_inv : forall fl t last, tinv t ->
+  (exists t' out, encode_loop t last fl = EOk (t', out) /\ tinv t' /\ et_max t' = et_max t) \/
+  encode_loop t last fl = EFail NoPreviousName.
+Proof.
+  induction fl as [|f fl IH]; intros t last Ht; cbn [encode_loop].
+  - left. eauto.
+  - destruct (fi_name f) as [n|].
+    + destruct (table_index_ok t (mkHdr n (fi_value f) (fi_sens f)) Ht)
+        as (t1 & idx & octets & Hti & Heh & Ht1 & Hm1 & _).
+      rewrite Hti, Heh.
+      destruct (IH t1 (Some (idx, mkHdr n (fi_value f) (fi_sens f))) Ht1)
+        as [(t2 & rest & Hloop & Ht2 & Hm2)|Hfail]; rewrite ?Hloop, ?Hfail.
+      * left. exists t2, (octets ++ rest). split; [reflexivity|]. split; [exact Ht2|lia].
+      * right. reflexivity.
+    + destruct last as [[idx lh]|]; [|right; reflexivity].
+      destruct (IH t (Some (idx, lh)) Ht) as [(t2 & rest & Hloop & Ht2 & Hm2)|Hfail]; rewrite ?Hloop, ?Hfail.
+      * left. eauto 10.
+      * right. reflexivity.
+Qed.
